@@ -213,7 +213,7 @@ type treeRun struct {
 }
 
 type treeStats struct {
-	splits, recycled, reopens, reopensWithFree, deletedKeys, growths, deleteBelows, leafMaxHit int
+	splits, recycled, reused, reopens, reopensWithFree, deletedKeys, growths, deleteBelows, leafMaxHit int
 }
 
 func (t *treeRun) violate(prop, rule, msg string) {
@@ -325,13 +325,14 @@ func runTree(plan *TreePlan, prop string, dir string) (res *RunResult) {
 		res.Steps = t.opIdx
 		res.Extra = map[string]int{"splits": t.stats.splits, "recycled_pages": t.stats.recycled, "reopens": t.stats.reopens,
 			"reopens_with_free_pages": t.stats.reopensWithFree, "deleted_keys": t.stats.deletedKeys, "growths": t.stats.growths,
-			"delete_belows": t.stats.deleteBelows}
+			"delete_belows": t.stats.deleteBelows, "reused_pages": t.stats.reused}
 	}()
 	if err := t.open(); err != nil {
 		res.Abort = "open: " + err.Error()
 		return
 	}
 	lastPages := t.tree.Stats().NumPages
+	lastFree := t.tree.Stats().NumPagesFree
 	lastAlloc := t.tree.Stats().Allocated
 	for i, op := range plan.Ops {
 		t.opIdx = i
@@ -455,6 +456,18 @@ func runTree(plan *TreePlan, prop string, dir string) (res *RunResult) {
 			break
 		}
 		st := t.tree.Stats()
+		// recycled pages are reused before the tree takes fresh ones: an
+		// operation that only inserts can extend the page frontier only when
+		// the free list is empty, so afterwards no free page may be left
+		if t.stats.reopens > 0 && (op.K == TSet || op.K == TSetMany) && st.NumPages > lastPages && st.NumPagesFree > 0 {
+			t.violate("C16", "free-pages-not-reused", fmt.Sprintf("the tree grew from %d to %d pages although %d recycled pages are still free", lastPages, st.NumPages, st.NumPagesFree))
+		}
+		if op.K == TSet || op.K == TSetMany {
+			if st.NumPagesFree < lastFree {
+				t.stats.reused += lastFree - st.NumPagesFree
+			}
+		}
+		lastFree = st.NumPagesFree
 		if st.NumPages > lastPages {
 			t.stats.splits += st.NumPages - lastPages
 		}
